@@ -7,6 +7,7 @@ spellings "f": "c" class form, "m" chained-method form, "o" operator form.
 """
 import collections
 import random
+import re
 import signal
 from . import load_pregex, canon as C, shadow as S, judge as J
 
@@ -202,7 +203,8 @@ class Interp:
 
     def check_c03_only(self, ev, real, text):
         pr = C.parse(text)
-        if pr.error and 'group' in pr.error and ('reference' in pr.error or 'unknown' in pr.error):
+        if pr.error and 'group' in pr.error and re.search('reference|unknown|redefinition|cannot refer', pr.error):
+            # dangling / duplicated / engine-restricted group references of the *program* (user's error, C03 excepts them)
             return
         if pr.error:
             self.violation(ev, 'uncompilable:' + pr.error, 'unspecified call returned %r' % text)
@@ -368,7 +370,7 @@ class Interp:
         if len(subs) == 1:
             return self.P(ar, as_)
         for (br, bs) in subs[1:]:
-            if isinstance(ar, str) and isinstance(br, str):
+            if isinstance(ar, str) and not isinstance(br, Pregex):
                 ar, as_ = self.wrap(ar, as_)
             opn = 'radd' if isinstance(ar, str) else 'add'
             ar, as_ = self.call(opn, 'o', (lambda ar=ar, br=br: ar + br),
@@ -388,10 +390,18 @@ class Interp:
         if f == 'm' and subs:
             if t.get('left'):
                 return self.fold('either', 'm', subs, lambda a, b: a.either(b, on_right=False),
-                                 lambda a, b: S.alt([S.operand(b), a]))
-            return self.fold('either', 'm', subs, lambda a, b: a.either(b), lambda a, b: S.alt([a, S.operand(b)]))
+                                 lambda a, b: self._either(a, S.operand(b), False))
+            return self.fold('either', 'm', subs, lambda a, b: a.either(b), lambda a, b: self._either(a, S.operand(b), True))
         return self.call('Either', 'c', lambda: OP.Either(*[r for r, _ in subs]),
                          lambda: self._nary(subs, S.alt), subs)
+
+    @staticmethod
+    def _either(recv, arg, on_right):
+        # x.either(empty) is x (documented); an empty *receiver* gives '|x' / 'x|' in the pinned
+        # tests while the docs say empty alternatives vanish: unspecified
+        if recv.k == 'Empty' and arg.k != 'Empty':
+            raise S.Unspec('either-on-empty-receiver')
+        return S.alt([recv, arg] if on_right else [arg, recv]) if arg.k != 'Empty' else recv
 
     def op_enc(self, t, f):
         subs = self.subs(t)
@@ -484,7 +494,7 @@ class Interp:
     def op_cond(self, t, f):
         name = t['name']
         ar, as_ = self.ev(t['x'][0])
-        if len(t['x']) > 1:
+        if len(t['x']) > 1 and not (t['x'][1].get('o') == 'badarg' and t['x'][1].get('v') == 'none'):
             br, bs = self.ev(t['x'][1])
             ops = [(ar, as_), (br, bs)]
             return self.call('Conditional', 'c', lambda: GR.Conditional(name, ar, br),
